@@ -330,6 +330,16 @@ def run(m: Model, r: Report, tier: str) -> None:
                 f"response is {req.name}: the genuine reply is refused as a mismatch" if bad else
                 "matches() has no isinstance test on the request", loc=mt.funcs[0].loc,
                 fact_ok=f"isinstance targets {[t.name for t in mt.isinstance_targets]} ⊇ {req.name}")
+        # the response constructor admits every value of an echoed field that the request constructor admits (range guards of siblings agree)
+        for req_e, self_e, fn in mt.atoms:
+            if not (isinstance(req_e, ast.Attribute) and isinstance(self_e, ast.Attribute)):
+                continue
+            rq, rs = _range_guard(m, req, req_e.attr), _range_guard(m, resp, self_e.attr)
+            if rq is None or rs is None:
+                continue
+            r.check(rs[0] <= rq[0] and rs[1] >= rq[1], "R10", f"{construct}#range:{self_e.attr}",
+                    f"the response constructor admits {self_e.attr} in {rs[0]:#x}..{rs[1]:#x}, the request carries {req_e.attr} in {rq[0]:#x}..{rq[1]:#x}: the genuine reply "
+                    "echoing a value outside the narrower range is refused as malformed", loc=resp.loc)
         # R2
         ra, pa = ca.analyse(req), ca.analyse(resp)
         compared: set[str] = set()
@@ -692,6 +702,25 @@ def run(m: Model, r: Report, tier: str) -> None:
     r.assumptions += ["matches() bodies are conjunctions of isinstance tests and equality atoms (other atoms are listed in evidence)",
                       "ISO echo table in sa/oracles/iso14229.py"]
     r.not_decided += ["acceptance for all value combinations", "the DDDI response's echoed DDDID is not compared (advisory, ISO-optional)"]
+
+
+def _range_guard(m: Model, cls: ClassInfo, field: str) -> tuple[int, int] | None:
+    """(lo, hi) of the check_range(...) guard the constructor of cls applies to the parameter stored in self.<field>; None if there is none."""
+    init = cls.methods.get("__init__")
+    if init is None:
+        return None
+    par = None
+    for n in ast.walk(init.node):
+        if isinstance(n, ast.Assign) and any(ast.unparse(t) == f"self.{field}" for t in n.targets) and isinstance(n.value, ast.Name):
+            par = n.value.id
+    if par is None:
+        return None
+    for n in ast.walk(init.node):
+        if isinstance(n, ast.Call) and ast.unparse(n.func) == "check_range" and len(n.args) == 4 and ast.unparse(n.args[0]) == par:
+            lo, hi = m.try_fold(init.module, n.args[2]), m.try_fold(init.module, n.args[3])
+            if isinstance(lo, int) and isinstance(hi, int):
+                return lo, hi
+    return None
 
 
 def _single_subfunction(m: Model, reg: Registry, t: ClassInfo) -> bool:
